@@ -176,4 +176,49 @@ func TestVerifArgConv(t *testing.T) {
 			}
 		}
 	}
+	// selectivity of conditions written as plain constants (type int) on integer parameters of other kinds: the value
+	// is compared as a value of the declared type, exactly - it matches itself and not its neighbours, however large
+	type intPar struct {
+		name string
+		fn   interface{}
+	}
+	for _, k := range []intPar{{"int", conv.PInt}, {"int64", conv.PI64}, {"uint64", conv.PU64}, {"uint", conv.PUint}, {"uintptr", conv.PUptr}} {
+		for _, v := range []int{5, 1<<31 - 2, 1<<53 + 1, 1<<60 + 2, 1700000000000000001, 1<<63 - 2} {
+			T := reflect.TypeOf(k.fn).In(0)
+			if T.Kind() == reflect.Int32 && v > 1<<31-1 {
+				continue
+			}
+			b := mocker.Create()
+			outcome := "exact"
+			p := catch(func() {
+				b.Func(k.fn).Return(9000)
+				b.Func(k.fn).When(v).Return(9001)
+				call := func(x int) int64 {
+					a := reflect.New(T).Elem()
+					if T.Kind() == reflect.Int || T.Kind() == reflect.Int64 || T.Kind() == reflect.Int32 {
+						a.SetInt(int64(x))
+					} else {
+						a.SetUint(uint64(x))
+					}
+					return reflect.ValueOf(k.fn).Call([]reflect.Value{a})[0].Int()
+				}
+				switch {
+				case call(v) != 9001:
+					outcome = "wrong-no-match"
+				case call(v+1) != 9000:
+					outcome = fmt.Sprintf("wrong-neighbour-matches(%d+1)", v)
+				case call(v-1) != 9000:
+					outcome = fmt.Sprintf("wrong-neighbour-matches(%d-1)", v)
+				}
+			})
+			if p != "" {
+				outcome = "panic:" + p
+				if len(outcome) > 90 {
+					outcome = outcome[:90]
+				}
+			}
+			catch(func() { b.Reset() })
+			emit(k.name, "intconst", "when-select", outcome)
+		}
+	}
 }
